@@ -165,10 +165,18 @@ class NeuralUCB(RLAlgorithm):
             NetworkGroup(eval=self.actor, shared=None, policy=True)
         )
 
+    @property
+    def exp_layer(self) -> nn.Module:
+        """Output layer of the actor. Always taken from the current actor, so that it
+        can't go stale (e.g. a copy unpickled from a checkpoint)."""
+        return self.actor.get_output_dense()
+
+    @exp_layer.setter
+    def exp_layer(self, value: nn.Module) -> None:
+        pass
+
     def init_params(self) -> None:
         """Initializes the parameters of the network."""
-        self.exp_layer = self.actor.get_output_dense()
-
         self.numel = sum(
             w.numel() for w in self.exp_layer.parameters() if w.requires_grad
         )
